@@ -772,6 +772,40 @@ static bool run(std::vector<std::string> w, std::vector<std::string> &out) {
         out.push_back(any ? line : line + " -");
         return true;
     }
+    // round 10: Base64 decode with text and output in ONE heap block of exactly |pre|+|text|+|post| bytes, output at offset dst
+    if (op == "b64.decip" && w.size() == 6 && vh::unhex(w[1], a) && vh::unhex(w[2], b)) {
+        Bytes post; uint64_t dst = 0, cap = 0;
+        if (vh::unhex(w[3], post) && vh::to_u64(w[4], dst) && vh::to_u64(w[5], cap) && std::to_string(dst) == w[4] && std::to_string(cap) == w[5]) {
+            Bytes mem = a; mem.insert(mem.end(), b.begin(), b.end()); mem.insert(mem.end(), post.begin(), post.end());
+            if (mem.size() < (1u << 16) && dst + cap <= mem.size() && dst <= a.size()) {     // output behind the start of the text: outside the contract
+                Exact m(mem);
+                size_t r = util::base64::Decode((const char *)m.get() + a.size(), b.size(), m.get() + dst, cap);
+                out.push_back("P b64.decip ret=" + std::to_string(r) + " out=" + vh::hex(m.get() + dst, r <= cap ? r : 0));
+                out.push_back("M b64.decip mem=" + vh::hex(m.get(), m.n));
+                return true;
+            }
+        }
+    }
+    // serializer self-append: the source is the serializer's own storage at offset off (inside the written data).
+    // r = 1: the caller reserves pos + k first; r = 0: capacity = size. A call that must reallocate reads its source from the
+    // freed block: run in a child, the way it ends is an M line (outside the contract, see C19_ser_self_append_dangles)
+    if (op == "ser.self" && w.size() == 4 && g.ser && vh::to_u64(w[1], v) && vh::to_u64(w[2], n) && std::to_string(v) == w[1]
+        && std::to_string(n) == w[2] && n < (1u << 16) && (w[3] == "0" || w[3] == "1") && v + n <= g.ser->pos()
+        && (g.ser_raw || g.ser->pos() <= g.ser_vec.size())) {
+        size_t off = (size_t)v, k = (size_t)n, pos = g.ser->pos();
+        if (g.ser_raw) { out.push_back(ser_show(g.ser->append(g.ser_buf->get() + off, k))); return true; }
+        if (w[3] == "1") g.ser_vec.reserve(pos + k);
+        else {
+            g.ser_vec.shrink_to_fit();                                                          // non-binding: make capacity = size for sure
+            if (g.ser_vec.capacity() != g.ser_vec.size()) { Bytes t(g.ser_vec); g.ser_vec.swap(t); }
+        }
+        if (g.ser_vec.capacity() >= pos + k) {
+            out.push_back(ser_show(g.ser->append(g.ser_vec.data() + off, k))); return true;
+        }
+        std::string t; std::string how = probe([&](int) { g.ser->append(g.ser_vec.data() + off, k); }, t);
+        out.push_back("M ser.self dangling=" + how);
+        return true;
+    }
     // Base64: decode t1, then t2, into the SAME buffer (never re-initialised in between)
     if (op == "b64.dec2" && w.size() == 4 && vh::unhex(w[1], a) && vh::unhex(w[2], b) && vh::to_u64(w[3], n) && n < (1u << 24)) {
         Exact in1(a), in2(b), o(n);
